@@ -110,3 +110,24 @@ def _set_ack(pair):
 def with_ack(lines):
     """Received lines with the ack flag set now and then (handlers must not care)."""
     return st.tuples(lines, st.sampled_from((0, 0, 0, 1))).map(_set_ack)
+
+
+TEMPLATE_TEXT = ("{}", "{0}", "{x}", "{input}", "{", "}", "{{", "%s", "%(input)s", "%d", "%")
+OUT_OF_DOMAIN = ("256", "-1", "a", "", "99999999999999999999", "6")
+
+
+def template_pair_lines() -> list[str]:
+    """Lines malformed in TWO header fields at once: text that looks like a format template in one, a value outside the field's domain in another
+    (an error message assembled from one field and formatted with another only goes wrong on such pairs). Every ordered pair of header positions."""
+    out = []
+    base = ["1", "0", "1", "0", "0", "20.5"]
+    for tpos in range(5):
+        for opos in range(5):
+            if tpos == opos:
+                continue
+            for template in TEMPLATE_TEXT:
+                for odd in OUT_OF_DOMAIN:
+                    fields = list(base)
+                    fields[tpos], fields[opos] = template, odd
+                    out.append(";".join(fields) + "\n")
+    return out
